@@ -632,6 +632,26 @@ def lag_detail_rules(chk, fi, lp, inner, lagvars):
                 isinstance(v.left.right, ast.Subscript) and ast.unparse(v.left.left.value) != ast.unparse(v.left.right.value)
             chk.ob("R-LAGSEARCH", c + "{misfit: %s}" % norm_stmt(n), "the misfit is the sum of squared differences of one window of each record", ok,
                    derived=" ".join(ast.unparse(v).split()), loc=fi.loc(n), stmt=norm_stmt(n))
+    # (a') the two records enter the search cut to ONE common length (the longer one truncated to the shorter): the names differenced in the
+    # misfit are each bound to `<record>.values[:L]` with the same L
+    pair = None
+    for n in ast.walk(lp):
+        if isinstance(n, ast.Assign) and len(n.targets) == 1 and isinstance(n.targets[0], ast.Name) and n.targets[0].id in summed and pair is None:
+            v = n.value
+            if isinstance(v, ast.BinOp) and isinstance(v.left, ast.BinOp) and isinstance(v.left.left, ast.Subscript) and isinstance(v.left.right, ast.Subscript) and \
+                    isinstance(v.left.left.value, ast.Name) and isinstance(v.left.right.value, ast.Name):
+                pair = (v.left.left.value.id, v.left.right.value.id)
+    if pair is not None:
+        cuts_ = {}
+        for n in ast.walk(fi.node):
+            if isinstance(n, ast.Assign) and len(n.targets) == 1 and isinstance(n.targets[0], ast.Name) and n.targets[0].id in pair and \
+                    isinstance(n.value, ast.Subscript) and isinstance(n.value.slice, ast.Slice) and n.value.slice.lower is None and n.value.slice.step is None and \
+                    n.value.slice.upper is not None:
+                cuts_.setdefault(n.targets[0].id, []).append(n)
+        if all(len(cuts_.get(k, [])) == 1 for k in pair) and pair[0] != pair[1]:
+            u0, u1 = [" ".join(ast.unparse(cuts_[k][0].value.slice.upper).split()) for k in pair]
+            chk.ob("R-LAGSEARCH", c + "{common length}", "both records are cut to the same length before they are compared", u0 == u1,
+                   derived="%s[:%s] and %s[:%s]" % (pair[0], u0, pair[1], u1), loc=fi.loc(cuts_[pair[0]][0]), stmt=norm_stmt(cuts_[pair[0]][0]))
     # (b) the search starts from lag 0
     inits = [n for n in ast.walk(lp) if isinstance(n, ast.Assign) and len(n.targets) == 1 and isinstance(n.targets[0], ast.Name) and
              n.targets[0].id in lagvars and isinstance(n.value, ast.Constant) and not in_inner(n)]
